@@ -622,8 +622,12 @@ func (f *Frame) clauseProps(c *Clause) []string {
 	if len(c.Props) > 0 {
 		return c.Props
 	}
-	if f.contract != nil {
+	if f.contract != nil && len(f.contract.Props) > 0 {
 		return f.contract.Props
+	}
+	// inlined frames (deferred closures, helpers): the obligations belong to the function under verification
+	if top := f.topFrame(); top.contract != nil {
+		return top.contract.Props
 	}
 	return nil
 }
